@@ -36,12 +36,19 @@ pub fn word_cfgs(rng: &mut Rng) -> Vec<WordCfg> {
   let customs = ["my-ignore-file", "x-ignore", "deno-lint-ignore-file", "deno-lint-ignore", "lint-skip", "skip-file"];
   let cf = customs[rng.below(3)];
   let cl = customs[3 + rng.below(3)];
-  vec![
+  let v = vec![
     WordCfg { words: Words { file: None, line: None }, file_word: "deno-lint-ignore-file".into(), line_word: "deno-lint-ignore".into(), decoys: vec![], name: "default/default" },
     WordCfg { words: Words { file: Some(leak(cf)), line: None }, file_word: cf.into(), line_word: "deno-lint-ignore".into(), decoys: vec!["deno-lint-ignore-file".into()], name: "custom/default" },
     WordCfg { words: Words { file: None, line: Some(leak(cl)) }, file_word: "deno-lint-ignore-file".into(), line_word: cl.into(), decoys: vec!["deno-lint-ignore".into()], name: "default/custom" },
     WordCfg { words: Words { file: Some(leak(cf)), line: Some(leak(cl)) }, file_word: cf.into(), line_word: cl.into(), decoys: vec!["deno-lint-ignore-file".into(), "deno-lint-ignore".into()], name: "custom/custom" },
-  ]
+  ];
+  v.into_iter()
+    .map(|mut w| {
+      let (f, l) = (w.file_word.clone(), w.line_word.clone());
+      w.decoys.retain(|d| *d != f && *d != l);
+      w
+    })
+    .collect()
 }
 
 fn gen_ext(rng: &mut Rng, src: &str) -> Option<ExtSpec> {
@@ -85,7 +92,8 @@ pub fn run(args: &Args) {
     let cfgs = word_cfgs(&mut crng);
     let wc = if only_default_words { &cfgs[0] } else { &cfgs[crng.below(cfgs.len())] };
     let ts = crng.chance(1, 2);
-    let df = directive_file(&mut crng, &DirGenOpts { file_word: &wc.file_word, line_word: &wc.line_word, decoys: wc.decoys.clone(), ts });
+    let opts = DirGenOpts { file_word: &wc.file_word, line_word: &wc.line_word, decoys: wc.decoys.clone(), ts };
+    let df = if crng.chance(1, 12) { first_line_variant(&mut crng, &opts) } else { directive_file(&mut crng, &opts) };
     let (codes, subset_kind) = rule_subset(&mut crng);
     let ext = if crng.chance(1, 3) { gen_ext(&mut crng, &df.src) } else { None };
     let ext_decline = ext.is_none() && crng.chance(1, 4);
@@ -212,18 +220,31 @@ pub fn run_case(out: &mut Out, case_no: usize, wc: &WordCfg, df: &DirFile, codes
       out.found("C03", "order", &key, json!({"meta": meta, "a": w[0].json(), "b": w[1].json()}));
     }
   }
-  // C05: first leading file directive bare => nothing at all
-  if spy.ran {
-    if let Some(f) = &spy.file_dir {
-      if f.codes.is_empty() {
-        out.found("C05", "bare-directive-did-not-silence", &key, json!({"meta": meta}));
-      }
-    }
-  } else if !final_ds.is_empty() {
-    out.found("C05", "rules-skipped-but-diagnostics", &key, json!({"meta": meta}));
+  // the directives the text *means* (generator's view, by the property's own definition)
+  let dedup = |v: &Vec<String>| -> BTreeSet<String> { v.iter().cloned().collect() };
+  let intended_file: Option<BTreeSet<String>> = df.intended_file.as_ref().map(dedup);
+  let intended_lines: BTreeMap<usize, BTreeSet<String>> = df.intended_lines.iter().map(|(l, c)| (*l, dedup(c))).collect();
+  // C05: first leading file directive bare => nothing at all; and only then are the rules skipped
+  let bare = intended_file.as_ref().map(|c| c.is_empty()).unwrap_or(false);
+  if bare && !final_ds.is_empty() {
+    out.found("C05", "bare-directive-did-not-silence", &key, json!({"meta": meta, "result": final_ds.iter().map(|d| d.json()).collect::<Vec<_>>()}));
+  }
+  if !bare && !spy.ran {
+    out.found("C05", "file-silenced-without-bare-leading-directive", &key, json!({"meta": meta}));
   }
   if !spy.ran {
     return;
+  }
+  // the parser's view must be the intended one (separators / reason must not change which codes are meant)
+  {
+    let got_file: Option<BTreeSet<String>> = spy.file_dir.as_ref().map(|f| f.codes.iter().cloned().collect());
+    let got_lines: BTreeMap<usize, BTreeSet<String>> = spy.line_dirs.iter().map(|(k, d)| (*k, d.codes.iter().cloned().collect())).collect();
+    if got_file != intended_file {
+      out.found("C06", "file-directive-codes-differ-from-what-the-text-means", &key, json!({"meta": meta, "parsed": got_file, "meant": intended_file}));
+    }
+    if got_lines != intended_lines {
+      out.found("C06", "line-directive-codes-differ-from-what-the-text-means", &key, json!({"meta": meta, "parsed": got_lines, "meant": intended_lines}));
+    }
   }
   // C04: codes of the result are enabled or external
   let ext_codes: Vec<String> = ext.as_ref().map(|e| e.codes.clone()).unwrap_or_default();
@@ -235,8 +256,8 @@ pub fn run_case(out: &mut Out, case_no: usize, wc: &WordCfg, df: &DirFile, codes
     }
   }
   // C06: kept = exactly the unsuppressed raw diagnostics (as a multiset; order is C03)
-  let file_codes: BTreeSet<String> = spy.file_dir.as_ref().map(|f| f.codes.iter().cloned().collect()).unwrap_or_default();
-  let line_map: BTreeMap<usize, BTreeSet<String>> = spy.line_dirs.iter().map(|(k, d)| (*k, d.codes.iter().cloned().collect())).collect();
+  let file_codes: BTreeSet<String> = intended_file.clone().unwrap_or_default();
+  let line_map: BTreeMap<usize, BTreeSet<String>> = intended_lines.clone();
   let raw_pos: Vec<Option<(usize, usize)>> = spy.raw.iter().map(|r| r.1).chain(ext.iter().flat_map(|e| e.diags.iter().map(|d| d.1.map(|(a, _)| (a, line_index(&df.src, a)))))).collect();
   let mut expected_kept: Vec<D> = vec![];
   let mut used_marks: BTreeSet<(Option<usize>, String)> = BTreeSet::new(); // (None=file | Some(line), code)
@@ -291,12 +312,15 @@ pub fn run_case(out: &mut Out, case_no: usize, wc: &WordCfg, df: &DirFile, codes
   let known: BTreeSet<String> = all.iter().cloned().chain(ext_codes.iter().cloned()).collect();
   let unused_on = configured.iter().any(|c| c == "ban-unused-ignore") && !file_codes.contains("ban-unused-ignore");
   let unknown_on = configured.iter().any(|c| c == "ban-unknown-rule-code") && !file_codes.contains("ban-unknown-rule-code");
+  // directive positions: the start of the comment on that line (from swc's comment list)
+  let comment_start_on_line = |l: usize| spy.all_comments.iter().filter(|c| c.line == l && c.line_kind).map(|c| c.start).last();
   let mut dirs: Vec<(Option<usize>, usize, Vec<String>)> = vec![];
-  if let Some(f) = &spy.file_dir {
-    dirs.push((None, f.start, f.codes.clone()));
+  if let Some(f) = &intended_file {
+    let start = spy.file_dir.as_ref().map(|d| d.start).unwrap_or(usize::MAX);
+    dirs.push((None, start, f.iter().cloned().collect()));
   }
-  for (k, d) in &spy.line_dirs {
-    dirs.push((Some(*k), d.start, d.codes.clone()));
+  for (k, cs) in &intended_lines {
+    dirs.push((Some(*k), comment_start_on_line(*k).unwrap_or(usize::MAX), cs.iter().cloned().collect()));
   }
   let any_unknown_reported_possible = dirs.iter().any(|(_, _, cs)| cs.iter().any(|c| !known.contains(c)));
   let mut expected_acc: Vec<(usize, String, String)> = vec![]; // (start, kind, code)
@@ -323,6 +347,12 @@ pub fn run_case(out: &mut Out, case_no: usize, wc: &WordCfg, df: &DirFile, codes
     }
   }
   let mut got_acc_c: Vec<(usize, String, String)> = got_acc.iter().map(|d| (d.start.unwrap_or(usize::MAX), if d.code == "ban-unused-ignore" { "U".to_string() } else { "K".to_string() }, quoted(&d.msg).unwrap_or_default())).collect();
+  // interpretation (DESIGN §9): a diagnostic whose code is neither built-in nor declared by the external linter
+  // breaks the external linter's side of the contract; a directive naming such a code both suppresses and is
+  // "unknown".  The accounting oracle does not speak about those codes.
+  let undeclared: BTreeSet<String> = raw_all.iter().map(|d| d.code.clone()).filter(|c| !known.contains(c)).collect();
+  expected_acc.retain(|x| !undeclared.contains(&x.2));
+  got_acc_c.retain(|x| !undeclared.contains(&x.2));
   expected_acc.sort();
   got_acc_c.sort();
   if expected_acc != got_acc_c {
